@@ -60,6 +60,47 @@ func C10(c *core.Ctx) {
 	c.Explain = "The size arithmetic over all packet sizes and MTUs, and byte-exact reproduction under every interleaving, are numeric/behavioural and NOT decided. Decided structural necessary conditions: (R10.1 protocol-field agreement) every LpPacket field the receive path reads to reassemble and deliver (Sequence, FragIndex, FragCount, Fragment, PitToken, CongestionMark) is stored by the send path, the three fragmentation fields only when more than one fragment is produced and on every fragment; frozen exceptions NextHopFaceId and CachePolicy (set by applications, not by the forwarder); (R10.2 reserve/attach agreement) an optional header is attached to a fragment only on paths on which its overhead was subtracted from the MTU — decided by reachability that is path-sensitive in the presence predicate of the attached value; the overhead constants cover the TLV sizes implied by the definition tags, including the Fragment element's own type and length; (R10.3) an oversize packet with fragmentation disabled reaches no sendFrame; every transport sendFrame that writes drops frames longer than MTU() first (siblings; NullTransport writes nothing); a completed message is removed from the partial-message store; (R10.5) reassembly key, slot and slot count are Sequence−FragIndex, FragIndex and FragCount, FragIndex is bounded by the count before it indexes, and the sender numbers consecutive fragments consecutively."
 	c.RuleText = "instances: LpPacket fields read on receive vs written on send, optional headers with an overhead constant, the additive terms of computeHeaderOverhead, transport implementations (discovered through the type checker), reassembly call arguments. Non-trivial = has a field set, path or constant sum to decide."
 	p := c.P
+	// fields of the link service by role, not by name: the reassembly store is the map
+	// field whose values are fragment lists ([][]byte); the cached overhead is the int
+	// field that the overhead function assigns
+	reasmField, ovhField := "partialMessageStore", "headerOverhead"
+	if ls := p.Named("fw/face", "NDNLPLinkService"); ls != nil {
+		if st, ok := ls.Underlying().(*types.Struct); ok {
+			var maps []string
+			for i := 0; i < st.NumFields(); i++ {
+				if m, ok := st.Field(i).Type().Underlying().(*types.Map); ok {
+					if s1, ok := m.Elem().Underlying().(*types.Slice); ok {
+						if s2, ok := s1.Elem().Underlying().(*types.Slice); ok {
+							if b, ok := s2.Elem().Underlying().(*types.Basic); ok && b.Kind() == types.Uint8 {
+								maps = append(maps, st.Field(i).Name())
+							}
+						}
+					}
+				}
+			}
+			if len(maps) == 1 {
+				reasmField = maps[0]
+			}
+		}
+	}
+	if ch := p.Func("fw/face", "NDNLPLinkService", "computeHeaderOverhead"); ch != nil && ch.Blocks != nil {
+		cnt := map[string]int{}
+		core.Instrs(ch, func(in ssa.Instruction) {
+			if st, ok := in.(*ssa.Store); ok {
+				if fa, ok := st.Addr.(*ssa.FieldAddr); ok && core.Same(fa.X, ch.Params[0]) {
+					if b, ok := core.Deref(fa.Type()).Underlying().(*types.Basic); ok && b.Info()&types.IsInteger != 0 {
+						_, f := core.FieldAddrName(fa)
+						cnt[f]++
+					}
+				}
+			}
+		})
+		if len(cnt) == 1 {
+			for f := range cnt {
+				ovhField = f
+			}
+		}
+	}
 	// ---- R10.4 (shared with C17 R17.3)
 	c.Import(C17, "R10.4", "the MTU set by management has no lower bound: an effective MTU <= 0 makes the fragment count a division by zero / negative", 1, func(k string) bool { return strings.HasPrefix(k, "R17.3:mtu-lower-bound") })
 	send := c.Fn("R10.1", "fw/face", "", "sendPacket")
@@ -294,7 +335,7 @@ func C10(c *core.Ctx) {
 			if !ok {
 				return
 			}
-			if _, f := core.FieldAddrName(st.Addr.(*ssa.FieldAddr)); f != "headerOverhead" {
+			if _, f := core.FieldAddrName(st.Addr.(*ssa.FieldAddr)); f != ovhField {
 				return
 			}
 			b, ok := st.Val.(*ssa.BinOp)
@@ -436,7 +477,7 @@ func C10(c *core.Ctx) {
 		})
 		okDel := len(rets) > 0
 		for _, r := range rets {
-			if !core.PrecedesDeep(reas, r, func(in ssa.Instruction) bool { return isMapDelete(in, "partialMessageStore") }) {
+			if !core.PrecedesDeep(reas, r, func(in ssa.Instruction) bool { return isMapDelete(in, reasmField) }) {
 				okDel = false
 			}
 		}
@@ -474,7 +515,7 @@ func C10(c *core.Ctx) {
 			e, ok := core.Strip(cond).(*ssa.Extract)
 			if ok && e.Index == 1 {
 				if lk, ok := e.Tuple.(*ssa.Lookup); ok {
-					if _, okF := core.FieldOf(lk.X, "partialMessageStore"); okF {
+					if _, okF := core.FieldOf(lk.X, reasmField); okF {
 						return 1, -1
 					}
 				}
@@ -486,7 +527,7 @@ func C10(c *core.Ctx) {
 			if !ok {
 				return false
 			}
-			_, okF := core.FieldOf(mu.Map, "partialMessageStore")
+			_, okF := core.FieldOf(mu.Map, reasmField)
 			_, isMake := core.Strip(mu.Value).(*ssa.MakeSlice)
 			return okF && isMake
 		}
